@@ -596,7 +596,8 @@ def run_harness(exe, path, ncases, rundir, env=None, timeout=3000):
                 break
         if bad is None:
             bad = (max(started) + 1) if started else first
-        crashes.append((bad, rc, err[-3000:]))
+        i = err.find("ERROR: AddressSanitizer")
+        crashes.append((bad, rc, err[max(0, i - 80):][:8000] if i >= 0 else err[-3000:]))
         first = bad + 1
     return blocks, crashes
 
@@ -777,6 +778,17 @@ def check_solution(lp, f):
     return bad
 
 
+def replay_of(c, upto=None):
+    r = {"mode": c["mode"], "scaler": c["scaler"], "persistent": c["persistent"], "simp": c.get("simp", 0),
+         "lp": dict(c["lp"], A=[list(t) for t in c["lp"]["A"]]), "family": c.get("family", "")}
+    if c["mode"] == "BARE":
+        r["xc"], r["xr"] = c["xc"], c["xr"]
+    else:
+        r["ops"] = c["ops"] if upto is None else c["ops"][:upto]
+    return r
+
+
+
 # ------------------------------------------------------------------------------------------ main
 def regenerate():
     pass
@@ -904,15 +916,6 @@ def main():
 
     def strip(text, drop=("cf", "scaled", "name", "rsz", "csz")):
         return " ".join(t for t in text.split() if t.split("=")[0] not in drop)
-
-    def replay_of(c, upto=None):
-        r = {"mode": c["mode"], "scaler": c["scaler"], "persistent": c["persistent"], "simp": c.get("simp", 0),
-             "lp": dict(c["lp"], A=[list(t) for t in c["lp"]["A"]]), "family": c.get("family", "")}
-        if c["mode"] == "BARE":
-            r["xc"], r["xr"] = c["xc"], c["xr"]
-        else:
-            r["ops"] = c["ops"] if upto is None else c["ops"][:upto]
-        return r
 
     if HARNESS_INF[0] is not None and (HARNESS_INF[0] != INF_TOK or locals().get("model_inf", INF_TOK) != INF_TOK):
         ck.violation("infinity-constant", "soplex::infinity is %s in the implementation, %s in the model (INF_M, INF_E of ScalingModel.v), %s in the generators"
@@ -1046,7 +1049,7 @@ def asan_run(ck, cases, rundir, limit=200):
     import shutil
     exe_copy = os.path.join(rundir, "C09.%d.asan.exe" % os.getpid())
     shutil.copy2(exe, exe_copy)
-    blocks, crashes = run_harness(exe_copy, path, len(sel), rundir, env=env, timeout=3000)
+    blocks, crashes = run_harness(exe_copy, path, len(sel), rundir, env=env, timeout=900)
     for q in (path, exe_copy):
         try:
             os.remove(q)
@@ -1055,6 +1058,9 @@ def asan_run(ck, cases, rundir, limit=200):
     ck.cov["asan"] = "%d histories under ASan+UBSan, %d aborted by the sanitizer" % (len(sel), len(crashes))
     for k, rc, err in crashes:
         c = sel[k] if k < len(sel) else {}
+        if c and blocks.get(k) and user_case(ck, k, c, blocks[k], {}, None, replay_of, []):
+            ck.count("asan: abort later in a history that had already diverged (attributed to the reported defect)")
+            continue
         m = re.search(r"ERROR: AddressSanitizer: (\S+)", err)
         kind = m.group(1) if m else "rc=%d" % rc
         frames = re.findall(r"#\d+ \S+ in (soplex::[A-Za-z0-9_]+(?:<[^>]*>)?::[A-Za-z0-9_~]+)", err)
@@ -1206,6 +1212,7 @@ def user_case(ck, k, c, ls, mblocks, strip, replay_of, crash):
             cur[tag] = rest
     prevA = None
     stopped = False
+    ns_seen = False
     for s in steps:
         if s["skipped"]:
             continue
@@ -1214,8 +1221,8 @@ def user_case(ck, k, c, ls, mblocks, strip, replay_of, crash):
         ck.count("op:" + s["name"])
         ck.evaluated(("user", c["scaler"], c["persistent"], optext))
         rp = {"case": replay_of(c, opi)}
-        if "A" not in s or "B" not in s:
-            break
+        if "A" not in s or "B" not in s or "F" not in s:
+            break              # incomplete observation (the process died inside this step)
         fa, fb = parse_fields(s["A"]), parse_fields(s["B"])
         # implicit creation of a column / row by this step (DESIGN section 9 #20)?
         implicit = ""
@@ -1229,6 +1236,7 @@ def user_case(ck, k, c, ls, mblocks, strip, replay_of, crash):
         if "EXC" in s:
             ck.violation("exception:" + s["name"], "an SPxException escaped in step %d (%s): %s" % (opi, optext, s["EXC"]), dict(rp, observed=s["EXC"]))
             break
+        ns_seen = fb.get("nullscaler") == "1"
         if fb.get("nullscaler") == "1":
             ck.violation("null-scaler-deref", "after setIntParam(SCALER, SCALER_OFF) on a persistently scaled LP _scaler is null while _realLP->isScaled(): "
                          "coefReal / getRowVectorReal dereference it (step %d, %s)" % (opi, optext), dict(rp, observed=s["B"][:400]))
@@ -1245,8 +1253,8 @@ def user_case(ck, k, c, ls, mblocks, strip, replay_of, crash):
             ctx = dict(rp, unscaled_object=s["A"], scaled_object=s["B"], internal=s.get("BI", "")[:800])
             if key in ("lo", "up", "lhs", "rhs", "vlo", "vup", "vlhs", "vrhs") and len(a) == len(b):
                 pos = [i for i in range(len(a)) if a[i] != b[i]]
-                i = pos[0]
-                if all(is_inf_tok(a[i]) for i in pos):
+                i = pos[0] if pos else 0
+                if pos and all(is_inf_tok(a[i]) for i in pos):
                     if key.startswith("v") and key[1:] not in diff:
                         # DESIGN section 9 #21: does not change the state of the object; go on with the history
                         ck.violation("vecgetter-inf:" + key,
@@ -1371,9 +1379,17 @@ def user_case(ck, k, c, ls, mblocks, strip, replay_of, crash):
     if crash and not stopped:
         last = steps[-1] if steps else {"k": 0, "name": "load"}
         nxt = c["ops"][last["k"]][0] if last["k"] < len(c["ops"]) and "F" in last else last["name"]
-        ck.violation("crash:user:" + nxt, "the implementation crashed (%s) in step %d (%s) of a user-level history, scaler %s persistent=%d"
+        hang = "sig=14" in crash[0]
+        if ns_seen and nxt == "solve" and not hang:
+            ck.violation("null-scaler-deref:optimize", "optimize() crashed (%s) in step %d: SCALER had been switched off (and PERSISTENTSCALING as well, so that _optimize does "
+                         "not unscale) while the LP is still persistently scaled; the solution is unscaled through the null _scaler" % (crash[0], last["k"] + 1),
+                         {"case": replay_of(c, last["k"] + 1), "observed": ls[-6:]})
+            return stopped
+        ck.violation(("hang:user:" if hang else "crash:user:") + nxt, ("the implementation did not return within 90 s" if hang else "the implementation crashed") +
+                     " (%s) in step %d (%s) of a user-level history, scaler %s persistent=%d"
                      % (crash[0], last["k"] + (1 if "F" in last else 0), nxt, SCALER_NAMES[c["scaler"]], c["persistent"]),
                      {"case": replay_of(c, last["k"] + 1), "observed": ls[-6:]})
+    return stopped
 
 
 if __name__ == "__main__":
